@@ -10,7 +10,7 @@ cd /verif; d=$(mktemp -d /dev/shm/verif-det-XXXX); mkdir -p $d/out; cp known_fin
 rc=0
 for p in $props; do
   n=0
-  for cfg in "16 0" "1 1" "4 4" "16 16" "8 1" "2 16"; do
+  for cfg in "16 0" "3 1" "6 4" "16 16"; do
     set -- $cfg; n=$((n+1))
     VERIF_DIR=$d/out VERIF_HARNESS=/verif/harness VERIF_SIMS=$sims VERIF_BUDGET_S=3000 VERIF_PAR=$1 VERIF_WORKER_GOMAXPROCS=$2 \
       VERIF_DIGEST_FILE=$d/$p.$n.raw ./bin/verif check $p quick >/dev/null 2>&1
@@ -18,9 +18,9 @@ for p in $props; do
   done
   lines=$(wc -l < $d/$p.1)
   bad=0
-  for k in 2 3 4 5 6; do
+  for k in 2 3 4; do
     if ! cmp -s $d/$p.1 $d/$p.$k; then bad=1; echo "DIVERGENCE property=$p config#$k:"; diff $d/$p.1 $d/$p.$k | head -5; fi
   done
-  if [ $bad = 0 ]; then echo "deterministic: $p ($lines scenario digests x 6 configurations)"; else rc=2; fi
+  if [ $bad = 0 ]; then echo "deterministic: $p ($lines scenario digests x 4 configurations)"; else rc=2; fi
 done
 exit $rc
